@@ -143,6 +143,13 @@ func H_C03_chunks() {
 		want, got := decodeBoth(wire, string(rs), nil, nil)
 		g, ok := got.(string)
 		vAssert("string-same", ok && g == want.(string))
+		// followed by another value: every chunk must consume exactly its own characters
+		got2, err := ToObject(refCat([]byte{0x78 + 2}, wire, refInt(7)), nil)
+		l, ok := got2.([]interface{})
+		vAssert("string-framing", err == nil && ok && len(l) == 2)
+		g2, ok1 := l[0].(string)
+		i2, ok2 := l[1].(int32)
+		vAssert("string-then-int", ok1 && ok2 && g2 == want.(string) && i2 == 7)
 	} else {
 		b := vBytes("b", n)
 		form := vChoice("form", 6)
@@ -154,6 +161,12 @@ func H_C03_chunks() {
 		want, got := decodeBoth(wire, b, nil, nil)
 		g, ok := got.([]byte)
 		vAssert("binary-same", ok && eqBytes(g, want.([]byte)))
+		got2, err := ToObject(refCat([]byte{0x78 + 2}, wire, refInt(7)), nil)
+		l, ok := got2.([]interface{})
+		vAssert("binary-framing", err == nil && ok && len(l) == 2)
+		g2, ok1 := l[0].([]byte)
+		i2, ok2 := l[1].(int32)
+		vAssert("binary-then-int", ok1 && ok2 && eqBytes(g2, want.([]byte)) && i2 == 7)
 	}
 }
 
@@ -203,6 +216,20 @@ func H_C03_lists() {
 		vAssert("typeref-outer", ok && len(l) == 2)
 		g2, ok := l[1].([]int32)
 		vAssert("typeref-same", ok && eqInt32s(g2, xs))
+		// every literal type name takes the next slot of the type table, repeated or not: after
+		// "[int32", "[int32", "[string" the reference #2 is "[string" and #1 is "[int32"
+		tm["[string"] = reflect.TypeOf([]string{})
+		strs := refCat([]byte{'V'}, refStr("[string"), refInt(1), refStr("s"))
+		three := refCat([]byte{0x78 + 5}, one, one, strs,
+			[]byte{'V'}, refInt(2), refInt(1), refStr("t"),
+			[]byte{'V'}, refInt(1), refInt(int32(n)), elems)
+		got3, err := ToObject(three, tm)
+		vAssert("typeref3-decodes", err == nil)
+		l3, ok := got3.([]interface{})
+		vAssert("typeref3-outer", ok && len(l3) == 5)
+		s3, ok1 := l3[3].([]string)
+		i3, ok2 := l3[4].([]int32)
+		vAssert("typeref3-same", ok1 && ok2 && len(s3) == 1 && s3[0] == "t" && eqInt32s(i3, xs))
 	} else {
 		g, ok := got.([]interface{})
 		vAssert("untyped-len", ok && len(g) == n)
